@@ -269,8 +269,15 @@ func planFaults(ti int, data []byte) []Fault {
 			if v == fd.Val {
 				continue
 			}
-			out = append(out, Fault{Table: ti, Field: fd.Name, Class: cls, Kind: "edit", Off: fd.Off, Len: fd.Len, Bytes: hex.EncodeToString(encode(fd.Kind, v, fd.Len)),
+			enc := encode(fd.Kind, v, fd.Len)
+			out = append(out, Fault{Table: ti, Field: fd.Name, Class: cls, Kind: "edit", Off: fd.Off, Len: fd.Len, Bytes: hex.EncodeToString(enc),
 				Block: fd.Block, InLog: fd.InLog, Feat: feat})
+			if fd.Kind == "varint" && len(enc) != fd.Len && fd.Block >= 0 {
+				// the same edit with the rest of the block kept consistent: block length and the restart offsets behind
+				// the field follow the change of length, padding absorbs it, so that the edited field really is decoded
+				out = append(out, Fault{Table: ti, Field: fd.Name, Class: cls + "_consistent", Kind: "editfix", Off: fd.Off, Len: fd.Len, Bytes: hex.EncodeToString(enc),
+					Block: fd.Block, InLog: fd.InLog, Feat: feat})
+			}
 		}
 		if fd.Kind == "varint" {
 			// a varint whose continuation bits never end
@@ -454,6 +461,83 @@ func apply(data []byte, ft Fault) []byte {
 			out = append(append(append([]byte{}, data[:dst]...), data[src:src+l]...), data[dst:]...)
 		}
 		fixFooter(out, false)
+		return out
+	}
+	if ft.Kind == "editfix" {
+		f, err := fmtdec.Parse(data)
+		if err != nil || ft.Block >= len(f.Blocks) {
+			return data
+		}
+		b := f.Blocks[ft.Block]
+		hoff := 0
+		if b.Off == 0 {
+			hoff = f.HeaderSize
+		}
+		start := int(b.Off)
+		repl := unhex(ft.Bytes)
+		var blk []byte
+		rel := ft.Off
+		if ft.InLog {
+			zr, err := zlib.NewReader(bytes.NewReader(data[start+hoff+4 : start+b.RawLen]))
+			if err != nil {
+				return data
+			}
+			var body bytes.Buffer
+			body.Write(data[start : start+hoff+4])
+			if _, err := body.ReadFrom(zr); err != nil {
+				return data
+			}
+			blk = body.Bytes()
+		} else {
+			blk = data[start : start+b.RawLen]
+			rel = ft.Off - start
+		}
+		if rel < hoff+4 || rel+ft.Len > len(blk)-2 {
+			return data
+		}
+		nb := append([]byte{}, blk[:rel]...)
+		nb = append(nb, repl...)
+		nb = append(nb, blk[rel+ft.Len:]...)
+		delta := len(repl) - ft.Len
+		nb[hoff+1], nb[hoff+2], nb[hoff+3] = byte(len(nb)>>16), byte(len(nb)>>8), byte(len(nb))
+		rc := int(nb[len(nb)-2])<<8 | int(nb[len(nb)-1])
+		for i := 0; i < rc; i++ {
+			p := len(nb) - 2 - 3*rc + 3*i
+			if p < rel+len(repl) {
+				break
+			}
+			o := int(nb[p])<<16 | int(nb[p+1])<<8 | int(nb[p+2])
+			if o > rel {
+				o += delta
+				nb[p], nb[p+1], nb[p+2] = byte(o>>16), byte(o>>8), byte(o)
+			}
+		}
+		out := append([]byte{}, data[:start]...)
+		if ft.InLog {
+			var z bytes.Buffer
+			z.Write(nb[:hoff+4])
+			zw, _ := zlib.NewWriterLevel(&z, 9)
+			zw.Write(nb[hoff+4:])
+			zw.Close()
+			out = append(out, z.Bytes()...)
+			out = append(out, data[start+b.RawLen:]...)
+			return out
+		}
+		out = append(out, nb...)
+		pad := b.Padded - b.RawLen
+		rest := data[start+b.RawLen:]
+		if pad > 0 {
+			if delta > 0 {
+				cut := delta
+				if cut > pad {
+					cut = pad
+				}
+				rest = rest[cut:]
+			} else {
+				out = append(out, make([]byte, -delta)...)
+			}
+		}
+		out = append(out, rest...)
 		return out
 	}
 	if ft.Kind == "empty" {
